@@ -664,3 +664,5 @@ def run(ctx, P):
     clause_a(ctx, P)
     clause_b(ctx, P)
     clause_c(ctx, P)
+    from . import c11
+    c11.clause_b(ctx, P)      # the refresh ladder moves strictly forward: a mark that is set to itself again lies in the past and makes the loop spin (shared with C11)
